@@ -31,6 +31,7 @@ from vlib import Broken, Failure, Check
 import gen_networks
 
 DRIVER = "Drivers/RunLoopDriver.lean"
+NEWTON_DRIVER = "Drivers/NewtonDriver.lean"
 FAULT_KINDS = ["fake", "maxiter", "singular", "nan"]
 NODE_KEYS = ["head", "demand", "pressure", "leak_demand"]
 LINK_KEYS = ["flowrate", "velocity", "status", "setting"]
@@ -124,6 +125,22 @@ def random_spec(rng, quick, trial_flip=False, odd_options=False):
         else:
             o["report_timestep"] = 3 * hyd
     spec = add_controls(rng, spec, trial_flip=trial_flip)
+    if rng.random() < 0.3:  # NewtonSolver options off their defaults (limits >= 1: 0 dies with UnboundLocalError, Props/C16Newton)
+        so = {}
+        if rng.random() < 0.5:
+            so["MAXITER"] = rng.choice([2, 4, 10, 50])
+        if rng.random() < 0.4:
+            so["BACKTRACKING"] = False
+        if rng.random() < 0.4:
+            so["BT_START_ITER"] = rng.choice([1, 2, 3])
+        if rng.random() < 0.4:
+            so["BT_MAXITER"] = rng.choice([1, 2, 5])
+        if rng.random() < 0.3:
+            so["BT_RHO"] = rng.choice([0.3, 0.8])
+        if rng.random() < 0.3:
+            so["TOL"] = rng.choice([1e-8, 1e-4])
+        if so:
+            spec["c16_solver_options"] = so
     r = rng.random()
     if r < 0.35:  # report_start > 0: on the hydraulic grid, off it, exactly the duration, beyond the duration (empty tables)
         d = o["duration"]
@@ -209,7 +226,7 @@ def outcome_letter(status, msg):
     return "o"
 
 
-def observe_run(spec, plan=None, backup=None, conv_err=False, max_calls=None, keep_tables=True, solver=None):
+def observe_run(spec, plan=None, backup=None, conv_err=False, max_calls=None, keep_tables=True, solver=None, solver_options=None):
     """run the real `WNTRSimulator.run_sim` on a fresh model with fault plan {call number: kind}.
     backup: None | 'newton' | 'fsolve'; solver: None (NewtonSolver) | 'fsolve'.  Returns the observation dict."""
     wntr = vlib.import_wntr()
@@ -237,6 +254,50 @@ def observe_run(spec, plan=None, backup=None, conv_err=False, max_calls=None, ke
            "t0": (wn.sim_time, wn._prev_sim_time)}
     orig_helper = core._solver_helper
     orig_spsolve = spla.spsolve
+    orig_solve = NewtonSolver.solve
+    obs["newton"] = []
+
+    def solve_wrapper(self_solver, model, ostream=None):
+        """record what happens inside the real NewtonSolver.solve: the residual norm of every evaluate_residuals() call and
+        whether each spsolve call succeeded; afterwards re-evaluate the residual of the state the model is left in"""
+        rec = {"norms": [], "lin": [], "opts": {"maxiter": self_solver.maxiter, "tol": float(self_solver.tol), "rho": float(self_solver.rho),
+                                                 "bt_maxiter": self_solver.bt_maxiter, "bt": bool(self_solver.bt),
+                                                 "bt_start_iter": self_solver.bt_start_iter},
+               "empty": len(model.get_x()) == 0}
+        real_eval = model.evaluate_residuals
+        inner_spsolve = spla.spsolve  # the real one, or the fault-injecting one
+
+        def ev(x=None):
+            r = real_eval(x)
+            rec["norms"].append(float(np.max(np.abs(r))) if len(r) else None)
+            return r
+
+        def sp_rec(*a, **k):
+            try:
+                d = inner_spsolve(*a, **k)
+            except spla.MatrixRankWarning:
+                rec["lin"].append(False)
+                raise
+            rec["lin"].append(True)
+            return d
+
+        model.evaluate_residuals = ev
+        spla.spsolve = sp_rec
+        try:
+            res = orig_solve(self_solver, model, ostream)
+        except Exception as e:  # UnboundLocalError with MAXITER = 0 / BT_MAXITER = 0
+            rec["exc"] = type(e).__name__
+            raise
+        finally:
+            del model.evaluate_residuals
+            spla.spsolve = inner_spsolve
+            obs["newton"].append(rec)
+        rec["ret"] = (int(res[0]), str(res[1]), res[2])
+        if not rec["empty"]:
+            r = real_eval()
+            rec["final_norm"] = float(np.max(np.abs(r))) if len(r) else 0.0
+        return res
+
     orig_changes = ControlChangeTracker.changes_made
     orig_save = hyd.save_results
     orig_presolve = sim._compute_next_timestep_and_run_presolve_controls_and_rules
@@ -299,7 +360,11 @@ def observe_run(spec, plan=None, backup=None, conv_err=False, max_calls=None, ke
         kw["backup_solver_options"] = {"MAXITER": 500}
     elif backup == "fsolve":
         kw["backup_solver"] = scipy.optimize.fsolve
+    solver_options = solver_options or spec.get("c16_solver_options")
+    if solver_options and solver is None:  # NewtonSolver option names; the scipy solvers take other keywords
+        kw["solver_options"] = dict(solver_options)
     core._solver_helper = helper
+    NewtonSolver.solve = solve_wrapper
     ControlChangeTracker.changes_made = changes_made
     hyd.save_results = save_results
     sim._compute_next_timestep_and_run_presolve_controls_and_rules = presolve
@@ -315,6 +380,7 @@ def observe_run(spec, plan=None, backup=None, conv_err=False, max_calls=None, ke
             exc = (type(e).__name__, str(e))
         finally:
             core._solver_helper = orig_helper
+            NewtonSolver.solve = orig_solve
             ControlChangeTracker.changes_made = orig_changes
             hyd.save_results = orig_save
             spla.spsolve = orig_spsolve
@@ -615,6 +681,174 @@ def gen_shape_lean(fields, body):
     ])
 
 
+# ----------------------------------------------------------------------------- translator: NewtonSolver.solve -> Gen/NewtonShape.lean
+
+_N_ACTS = {
+    "x = model.get_x()": "getX",
+    "use_r_ = False": "(.setUseR false)",
+    "use_r_ = True": "(.setUseR true)",
+    "J = model.evaluate_jacobian(x=None)": "evalJacobian",
+    "d = -sp.linalg.spsolve(J, r, permc_spec='COLAMD', use_umfpack=False)": "linSolve",
+    "alpha = 1.0": "alphaInit",
+    "x_ = x + alpha * d": "trial",
+    "model.load_var_values_from_x(x_)": "loadTrial",
+    "x = x_": "accept",
+    "alpha = alpha * self.rho": "shrink",
+    "x += d": "plainStep",
+    "model.load_var_values_from_x(x)": "loadX",
+}
+_N_PAIRS = {
+    ("r = r_", "r_norm = new_norm"): "useStored",
+    ("r = model.evaluate_residuals()", "r_norm = np.max(abs(r))"): "evalResidual",
+    ("r_ = model.evaluate_residuals()", "new_norm = np.max(abs(r_))"): "evalTrial",
+}
+_N_CONDS = {
+    "len(x) == 0": "emptyX",
+    "time.time() - t0 >= self.time_limit": "timeUp",
+    "use_r_": "useR",
+    "r_norm < self.tol": "normLtTol",
+    "self.bt and outer_iter >= self.bt_start_iter": "btEnabled",
+    "new_norm < (1.0 - 0.0001 * alpha) * r_norm": "decrease",
+    "iter_bt + 1 >= self.bt_maxiter": "lsExhausted",
+}
+_N_MSGS = [("No variables or constraints", "noVars"), ("Solved Successfully", "solved"), ("Time limit exceeded", "timeLimit"),
+           ("Jacobian is singular", "singular"), ("Line search failed", "lineSearch"), ("Reached maximum number of iterations", "maxIter")]
+_N_DEFAULTS = {"MAXITER": "maxiter", "TOL": "tol", "BT_RHO": "rho", "BT_MAXITER": "btMaxiter", "BACKTRACKING": "bt", "BT_START_ITER": "btStartIter"}
+
+
+def newton_shape_from_source(path):
+    """Python ast of NewtonSolver.solve / __init__ -> (defaults dict, Lean text of the skeleton)"""
+    import ast
+
+    tree = ast.parse(open(path).read())
+    cls = [n for n in tree.body if isinstance(n, ast.ClassDef) and n.name == "NewtonSolver"]
+    if not cls:
+        raise vlib.BrokenTie("class NewtonSolver not found in %s" % path)
+    fns = {b.name: b for b in cls[0].body if isinstance(b, ast.FunctionDef)}
+    if "solve" not in fns or "__init__" not in fns:
+        raise vlib.BrokenTie("NewtonSolver.solve / __init__ not found")
+    acts = {_canon(k, "exec"): v for k, v in _N_ACTS.items()}
+    pairs = {(_canon(a, "exec"), _canon(b, "exec")): v for (a, b), v in _N_PAIRS.items()}
+    conds = {_canon(k, "eval"): v for k, v in _N_CONDS.items()}
+
+    def ignorable(st):
+        src = ast.unparse(st)
+        if src == "t0 = time.time()":
+            return True
+        if isinstance(st, ast.Expr) and isinstance(st.value, ast.Call) and ast.unparse(st.value.func).startswith("logger."):
+            return True
+        if isinstance(st, ast.Expr) and isinstance(st.value, ast.Constant) and isinstance(st.value.value, str):
+            return True
+        if isinstance(st, ast.If) and ast.unparse(st.test) == "self.log_progress or ostream is not None":
+            return True  # progress logging only (checked: assigns nothing but `msg`)
+        return False
+
+    def paren(t):
+        return t if t.startswith(".") and " " not in t else "(" + t + ")"
+
+    def tr_block(stmts, indent):
+        out = []
+        i = 0
+        while i < len(stmts):
+            st = stmts[i]
+            if ignorable(st):
+                if isinstance(st, ast.If):
+                    for x in ast.walk(st):
+                        if isinstance(x, (ast.Assign, ast.AugAssign)) and ast.unparse(x.targets[0] if isinstance(x, ast.Assign) else x.target) != "msg":
+                            raise vlib.BrokenTie("the logging block of NewtonSolver.solve assigns " + ast.unparse(x)[:80])
+                        if isinstance(x, (ast.Return, ast.Break, ast.Continue, ast.Raise)):
+                            raise vlib.BrokenTie("the logging block of NewtonSolver.solve changes the control flow")
+                i += 1
+                continue
+            if i + 1 < len(stmts) and (ast.dump(st), ast.dump(stmts[i + 1])) in pairs:
+                out.append(".act .%s" % pairs[(ast.dump(st), ast.dump(stmts[i + 1]))])
+                i += 2
+                continue
+            out.append(tr_stmt(st, indent))
+            i += 1
+        if not out:
+            return ".skip"
+        if len(out) == 1:
+            return out[0]
+        pad = "  " * (indent + 1)
+        return "nblock [\n" + ",\n".join(pad + o for o in out) + "]"
+
+    def tr_return(st):
+        v = st.value
+        if not (isinstance(v, ast.Tuple) and len(v.elts) == 3):
+            raise vlib.BrokenTie("NewtonSolver.solve returns something else than a triple: " + ast.unparse(st)[:120])
+        status = ast.unparse(v.elts[0])
+        if status not in ("SolverStatus.converged", "SolverStatus.error"):
+            raise vlib.BrokenTie("unknown status in " + ast.unparse(st)[:120])
+        text = ast.unparse(v.elts[1])
+        msg = [name for needle, name in _N_MSGS if needle in text]
+        if len(msg) != 1:
+            raise vlib.BrokenTie("unknown message in " + ast.unparse(st)[:120])
+        third = ast.unparse(v.elts[2])
+        if third != ("0" if msg[0] == "noVars" else "outer_iter"):
+            raise vlib.BrokenTie("unexpected iteration count in " + ast.unparse(st)[:120])
+        return ".ret .%s .%s" % (status.split(".")[1], msg[0])
+
+    def tr_stmt(st, indent):
+        d = ast.dump(st)
+        if d in acts:
+            return ".act %s" % (acts[d] if acts[d].startswith("(") else "." + acts[d])
+        if isinstance(st, ast.Return):
+            return tr_return(st)
+        if isinstance(st, ast.Break):
+            return ".brk"
+        if isinstance(st, ast.If):
+            c = ast.dump(st.test)
+            if c not in conds:
+                raise vlib.BrokenTie("unknown condition in NewtonSolver.solve: `%s` (line %d)" % (ast.unparse(st.test), st.lineno))
+            return ".ite .%s %s %s" % (conds[c], paren(tr_block(st.body, indent + 1)), paren(tr_block(st.orelse, indent + 1)))
+        if isinstance(st, ast.For) and not st.orelse:
+            head = "for %s in %s" % (ast.unparse(st.target), ast.unparse(st.iter))
+            rng = {"for outer_iter in range(self.maxiter)": "maxiter", "for iter_bt in range(self.bt_maxiter)": "btMaxiter"}.get(head)
+            if rng is None:
+                raise vlib.BrokenTie("unknown loop in NewtonSolver.solve: " + head)
+            return ".forRange .%s %s" % (rng, paren(tr_block(st.body, indent + 1)))
+        if isinstance(st, ast.Try) and len(st.handlers) == 1 and not st.orelse and not st.finalbody \
+                and ast.unparse(st.handlers[0].type) == "sp.linalg.MatrixRankWarning":
+            return ".tryLin %s %s" % (paren(tr_block(st.body, indent + 1)), paren(tr_block(st.handlers[0].body, indent + 1)))
+        raise vlib.BrokenTie("unrecognised statement in NewtonSolver.solve (line %d): %s" % (st.lineno, ast.unparse(st)[:160]))
+
+    body = tr_block(fns["solve"].body, 0)
+    # option defaults from __init__: `if "KEY" not in self._options: self.attr = <literal>`
+    defaults = {}
+    for st in fns["__init__"].body:
+        if isinstance(st, ast.If) and isinstance(st.test, ast.Compare) and len(st.body) == 1 and isinstance(st.body[0], ast.Assign):
+            key = ast.unparse(st.test.left).strip("'\"")
+            if key in _N_DEFAULTS:
+                defaults[_N_DEFAULTS[key]] = ast.literal_eval(st.body[0].value)
+    if set(defaults) != set(_N_DEFAULTS.values()):
+        raise vlib.BrokenTie("NewtonSolver.__init__ defaults not recognised: %s" % sorted(defaults))
+    return defaults, body
+
+
+def gen_newton_lean(defaults, body):
+    from fractions import Fraction
+
+    return "\n".join([
+        "-- GENERATED by harness/props/c16.py from wntr/sim/solvers.py (Python ast of NewtonSolver). Do not edit.",
+        "import WntrModel.Model.Newton",
+        "namespace Wntr.Newton.Gen",
+        "open Wntr.Newton",
+        "",
+        "/-- `NewtonSolver.solve`, statement by statement (timing bookkeeping and progress logging dropped) -/",
+        "def solveShape : NStmt := " + body,
+        "",
+        "/-- the defaults of `NewtonSolver.__init__` (doubles as exact rationals); `c1` = the literal 0.0001 of the decrease test -/",
+        "def defaults : Opts :=",
+        "  { maxiter := %d, tol := %s, rho := %s, btMaxiter := %d, bt := %s, btStartIter := %d, c1 := %s }"
+        % (defaults["maxiter"], vlib.lean_rat(Fraction(float(defaults["tol"]))), vlib.lean_rat(Fraction(float(defaults["rho"]))),
+           defaults["btMaxiter"], "true" if defaults["bt"] else "false", defaults["btStartIter"], vlib.lean_rat(Fraction(0.0001))),
+        "",
+        "end Wntr.Newton.Gen",
+        "",
+    ])
+
+
 # ----------------------------------------------------------------------------- the property oracle on the implementation
 
 
@@ -634,6 +868,9 @@ def judge(case, obs, ref):
             return [("scipy-solver-converged-typeerror",
                      "run_sim raised TypeError (%s) after a scipy solver converged (its iteration count is None); solver outcomes %s, backup %s"
                      % (obs["exc"][1], "".join(obs["outs"]), obs["backup"]))]
+        if obs["exc"][0] == "ValueError" and "number of constraints and variables" in obs["exc"][1]:
+            return [("model-structure-constraints-vs-variables",
+                     "run_sim raised ValueError (%s) at a solve instead of reporting a step that cannot be solved" % obs["exc"][1])]
         return [("unexpected-exception-%s" % obs["exc"][0], "run_sim raised %s: %s" % obs["exc"])]
     if got != exp:
         if exp == "finished":
@@ -701,6 +938,96 @@ def judge(case, obs, ref):
     return out
 
 
+# ----------------------------------------------------------------------------- NewtonSolver.solve: oracle, model line, float replay
+
+_NEWTON_MSGS = [("No variables or constraints", "noVars"), ("Solved Successfully", "solved"), ("Time limit exceeded", "timeLimit"),
+                ("Jacobian is singular", "singular"), ("Line search failed", "lineSearch"), ("Reached maximum number of iterations", "maxIter")]
+
+
+def newton_msg(text):
+    for needle, name in _NEWTON_MSGS:
+        if text.startswith(needle):
+            return name
+    return None
+
+
+def newton_line(rec):
+    from fractions import Fraction
+
+    o = rec["opts"]
+    norms = ",".join("nan" if (v is None or v != v or v in (float("inf"), float("-inf"))) else vlib.frac_str(v) for v in rec["norms"]) or "-"
+    lin = "".join("1" if b else "0" for b in rec["lin"]) or "-"
+    return "newton %d %s %s %d %d %d %s %d - %s %s" % (
+        o["maxiter"], vlib.frac_str(o["tol"]), vlib.frac_str(o["rho"]), o["bt_maxiter"], 1 if o["bt"] else 0, o["bt_start_iter"],
+        vlib.frac_str(0.0001), 1 if rec["empty"] else 0, norms, lin)
+
+
+def newton_float_replay(rec):
+    """the same algorithm in double arithmetic on the observed norms (used only to tell a rounding-borderline decision from a
+    real disagreement when the exact-rational model and the code differ)"""
+    o = rec["opts"]
+    norms, lin = rec["norms"], rec["lin"]
+    if rec["empty"]:
+        return ("converged", "noVars", 0, 0)
+    ne = 0
+    use_r = False
+    new_norm = None
+
+    def get(i):
+        v = norms[i] if i < len(norms) else None
+        return float("nan") if v is None else v
+
+    k = -1
+    for k in range(o["maxiter"]):
+        if use_r:
+            r_norm = new_norm
+        else:
+            r_norm = get(ne)
+            ne += 1
+        if r_norm < o["tol"]:
+            return ("converged", "solved", k, ne)
+        if k < len(lin) and not lin[k]:
+            return ("error", "singular", k, ne)
+        alpha = 1.0
+        if o["bt"] and k >= o["bt_start_iter"]:
+            use_r = True
+            it = None
+            for it in range(o["bt_maxiter"]):
+                new_norm = get(ne)
+                ne += 1
+                if new_norm < (1.0 - 0.0001 * alpha) * r_norm:
+                    break
+                alpha = alpha * o["rho"]
+            if it is None:
+                return ("crash", "-", 0, ne)
+            if it + 1 >= o["bt_maxiter"]:
+                return ("error", "lineSearch", k, ne)
+    if k < 0:
+        return ("crash", "-", 0, ne)
+    return ("error", "maxIter", k, ne)
+
+
+def judge_newton(rec):
+    """statement-level oracle on one real NewtonSolver.solve call -> list of (key, what)"""
+    out = []
+    if "ret" not in rec:
+        return out  # an exception inside solve surfaces through run_sim and is judged there
+    st, text, it = rec["ret"]
+    msg = newton_msg(text)
+    if st == 1:
+        if not rec["empty"] and not (rec.get("final_norm", float("nan")) < rec["opts"]["tol"]):
+            out.append(("newton-converged-large-residual",
+                        "NewtonSolver.solve returned converged but max|r| re-evaluated on the model is %r (TOL %r)" % (rec.get("final_norm"), rec["opts"]["tol"])))
+        if msg not in ("solved", "noVars"):
+            out.append(("newton-converged-odd-message", "converged with message %r" % text))
+    elif st == 0:
+        if msg not in ("timeLimit", "singular", "lineSearch", "maxIter"):
+            out.append(("newton-unreported-failure", "status error without a known message: %r" % text))
+    else:
+        out.append(("newton-unreported-failure", "status %r is neither converged nor error" % st))
+    return out
+
+
 # ----------------------------------------------------------------------------- EpanetSimulator: a run that did solve must not say it failed
 
 
@@ -761,7 +1088,7 @@ def epanet_oracle(ctx, specs_starts):
 class C16(Check):
     pid = "C16"
     level = "proof"
-    prop_modules = ["WntrModel.Props.C16"]
+    prop_modules = ["WntrModel.Props.C16", "WntrModel.Props.C16Newton"]
     manifest = dict(
         category="proof",
         text="Lean theorems about the loop program that a Python-ast translator regenerates from run_sim on every run "
@@ -776,13 +1103,20 @@ class C16(Check):
         "whose solver agrees on the earlier calls (failure_prefix); a completed run continued is a no-op with empty tables "
         "(continued_completed_noop); tables have exactly one column per element for every edit history (one_column_per_element, on the "
         "C14 registry invariant). The driver executes the interpretation of the generated program on the observed streams of every "
-        "fault-injected run.",
+        "fault-injected run. NewtonSolver.solve (Model/Newton, Props/C16Newton): converged => the residual norm at the state the model is "
+        "left in is a number < TOL (newton_converged_implies_small_residual, newton_x_is_model_state), <= MAXITER*(BT_MAXITER+1) residual "
+        "evaluations (newton_terminates), every other exit is status error with one of four messages unless MAXITER/BT_MAXITER = 0 "
+        "(newton_failure_is_reported, newton_crash_only_with_zero_limits), _solver_helper passes that on faithfully (helper_newton_faithful, "
+        "run_sim_accepts_only_small_residuals); the solve skeleton is regenerated from solvers.py (generated_newton_shape_is_ref) and every "
+        "real solve call of the run is replayed through NewtonDriver and its residual re-evaluated.",
         design_ref="DESIGN.md §5 C16",
         note="modelled, not verified: the inside of _compute_next_timestep_and_run_presolve_controls_and_rules (an oracle with the contract "
         "prev < t' <= cur, checked on every observed call; proved for time conditions in Lemmas/Time, Lemmas/Sched; contract_needed shows "
         "run_sim relies on it), NewtonSolver/scipy (status class only), the world calls inside the loop (feasibility controls, graph / model "
         "updates, store_results_in_network: positions recorded in the generated program, effect inside the oracles), pandas; oracle only: "
-        "finite numbers and prefix VALUES (1e-6 relative, WNTR runs are not bit-reproducible) on the real tables",
+        "finite numbers and prefix VALUES (1e-6 relative, WNTR runs are not bit-reproducible) on the real tables; Newton: the model "
+        "compares in exact rationals, the code in doubles (borderline comparisons are counted, not judged); the tie between the Newton "
+        "reference skeleton and the Lean function `solve` is by transliteration + replay, not by an interpreter as for run_sim",
         technique="Lean 4 proof over a loop program regenerated from the source by an ast translator + fault-injection differential run (substituted _solver_helper, spsolve) "
         "against the Lean driver + statement oracle on the real tables",
     )
@@ -807,6 +1141,8 @@ class C16(Check):
         fields, body = shape_from_source(os.path.join(vlib.REPO, "wntr", "sim", "core.py"))
         ctx.cov["shape_statements"] = body.count(".act") + body.count(".ite") + body.count(".raise") + body.count(".brk") + body.count(".cont")
         vlib.write_if_changed(os.path.join(vlib.GEN, "RunLoopShape.lean"), gen_shape_lean(fields, body))
+        defaults, nbody = newton_shape_from_source(os.path.join(vlib.REPO, "wntr", "sim", "solvers.py"))
+        vlib.write_if_changed(os.path.join(vlib.GEN, "NewtonShape.lean"), gen_newton_lean(defaults, nbody))
 
     # -- one group of cases for a spec ------------------------------------------------------
     def cases_for(self, ctx, spec, exhaustive):
@@ -848,6 +1184,7 @@ class C16(Check):
         """groups: list of (clean_obs, cases).  Observes every case, asks the Lean model, judges.  -> failures, broken"""
         failures, broken = [], []
         lines, metas = [], []
+        nlines, nrecs = [], []
         for clean, cases in groups:
             refs = {}
             for case in cases:
@@ -915,6 +1252,13 @@ class C16(Check):
                                        "time": obs.get("time"), "exc": obs["exc"], "warnings": obs["warnings"][:4]}}
                 for key, what in verdicts:
                     failures.append(Failure(key, what, replay))
+                for rec in obs["newton"]:
+                    ctx.count("newton_solve_calls")
+                    for key, what in judge_newton(rec):
+                        failures.append(Failure(key, what, dict(replay, newton={"opts": rec["opts"], "ret": rec.get("ret"), "norms": rec["norms"][:50]})))
+                    if "ret" in rec and len(nlines) < (4000 if ctx.quick else 20000):
+                        nlines.append(newton_line(rec))
+                        nrecs.append((rec, replay))
                 if len(ctx.samples) < 4 and (obs["kinds_hit"] or partial) and ctx.rng.random() < 0.2:
                     ctx.sample({"controls": spec.get("c16_controls"), "options": spec["options"], "plan": case["plan"],
                                 "backup": case["backup"], "conv_err": case["conv_err"], "observed": replay["observed"]})
@@ -964,6 +1308,29 @@ class C16(Check):
                                          % (m["contract"], line, json.dumps(replay["observed"]["pres"]))))
                 else:
                     ctx.count("contract_checked_calls", len(obs["pres"]))
+        if nlines:
+            out = vlib.lean_run(NEWTON_DRIVER, "\n".join(nlines) + "\n")
+            if len(out) != len(nlines):
+                raise vlib.Infra("Newton driver returned %d lines for %d requests" % (len(out), len(nlines)))
+            for line, ans, (rec, replay) in zip(nlines, out, nrecs):
+                if ans.startswith("bad-op"):
+                    raise vlib.Infra("Newton driver rejected: " + line[:300])
+                parts = ans.split()
+                st, text, it = rec["ret"]
+                real = ("converged" if st == 1 else "error", newton_msg(text), it, len(rec["norms"]))
+                model = (parts[0], parts[1], int(parts[2]), int(parts[3].split("=")[1]))
+                ctx.count("newton:" + real[0] + ":" + str(real[1]))
+                if len(rec["norms"]) >= 3:
+                    ctx.case(("newton", tuple(rec["norms"][:6]), json.dumps(rec["opts"], sort_keys=True)), nontrivial=True)
+                if model != real:
+                    if newton_float_replay(rec) == real:
+                        ctx.count("newton_rounding_borderline")  # exact rationals and doubles decide a borderline comparison differently
+                        continue
+                    ctx.count("newton_model_disagreements")
+                    broken.append(Broken("correspondence", "NewtonDriver vs NewtonSolver.solve",
+                                         "model=%s code=%s\n%s" % (model, real, line[:600])))
+                elif parts[0] == "converged" and parts[5] == "small=no":
+                    broken.append(Broken("correspondence", "NewtonDriver small residual", ans + "\n" + line[:600]))
         return failures, broken
 
     def correspondence(self, ctx):
